@@ -1,5 +1,8 @@
-(* Model of BooleanExpression.__str__ (and the __str__ of the logical / comparison expression classes),
-   at token level.  [pr] is the printer after the fix, [pr_old] the one before.  Executable definitions only. *)
+(* Token-level printers of conditions.  [pr] / [print] put parentheses only where the documented grouping rules need
+   them (left operand of and/or that is itself and/or/not; compound operands of a comparison); it is the
+   SPECIFICATION of grouping used by C12 (parse (print e) = e for every tree) and the printer a repair of
+   BooleanExpression.__str__ would have to match (C04, not claimed yet; no such change has been made to /repo).
+   [pr_old] / [print_old] model BooleanExpression.__str__ as it is in /repo today.  Executable definitions only. *)
 From LiquidVerif Require Import Prelude PyPrims Cond.
 
 Inductive pctx :=
@@ -31,7 +34,7 @@ Fixpoint pr (c : pctx) (e : bexpr) : list tok :=
 
 Definition print (e : bexpr) : list tok := pr CRight e.
 
-(* ---- the printer before the fix: `and` printed as if it bound tighter than `or`, `not` never parenthesised,
+(* ---- BooleanExpression.__str__ as it is in /repo: `and` printed as if it bound tighter than `or`, `not` never parenthesised,
         comparison operands printed with no parentheses at all ---- *)
 Fixpoint plain (e : bexpr) : list tok :=
   match e with
